@@ -40,6 +40,7 @@ type Link struct {
 	// transport behaviour (legal, not faults)
 	SegPm      int // permille of chunks that get cut
 	MaxCuts    int
+	ReadMax    int // a read returns at most this many bytes (a small pty or pipe buffer); 0: as many as asked for
 	CoalescePm int
 	LatPm      int
 	LatMax     time.Duration
@@ -269,6 +270,9 @@ func (l *Link) Read(p []byte) (int, error) {
 			s := l.segs[0]
 			now := w.Now()
 			if s.at <= now {
+				if l.ReadMax > 0 && len(p) > l.ReadMax {
+					p = p[:l.ReadMax]
+				}
 				n := copy(p, s.data)
 				s.data = s.data[n:]
 				if len(s.data) == 0 {
